@@ -457,20 +457,35 @@ class AbsExec:
         return self.run(body, args)
 
 
-def _clone_env(env, old, new):
+def _clone_env(env, old, new, fmap=None):
+    """Copy an environment for a forked path. Holder frames (one-slot frames standing for by-reference arguments of the
+    function being analysed: same body object, not the frame itself) are copied too, so that branch refinements and
+    writes through `&mut self` stay path-local."""
+    fmap = {} if fmap is None else fmap
+    if old is not None:
+        fmap[id(old)] = new
     out = {}
     for k, v in env.items():
-        out[k] = _clone_val(v, old, new)
+        out[k] = _clone_val(v, old, new, fmap)
     return out
 
 
-def _clone_val(v, old, new):
+def _clone_val(v, old, new, fmap=None):
     if isinstance(v, Ref):
-        return Ref(new if v.frame is old else v.frame, v.local, v.proj)
+        if v.frame is old:
+            return Ref(new, v.local, v.proj)
+        if fmap is not None and old is not None and v.frame is not None and v.frame.body is old.body and v.frame is not old:
+            tgt = fmap.get(id(v.frame))
+            if tgt is None:
+                tgt = Frame(v.frame.body, [])
+                fmap[id(v.frame)] = tgt
+                tgt.env = _clone_env(v.frame.env, v.frame, tgt, fmap)
+            return Ref(tgt, v.local, v.proj)
+        return v
     if isinstance(v, Tup):
-        return Tup([_clone_val(x, old, new) for x in v.items])
+        return Tup([_clone_val(x, old, new, fmap) for x in v.items])
     if isinstance(v, Adt):
-        return Adt(v.name, v.variant, [_clone_val(x, old, new) for x in v.fields])
+        return Adt(v.name, v.variant, [_clone_val(x, old, new, fmap) for x in v.fields])
     return v
 
 
